@@ -71,13 +71,13 @@ class Responder:
             self.tp_n += 1
             ok = b"\x7e\x00"
             pend = b"\x7f\x3e\x78"
-        elif data[:1] in (b"\x22", b"\x2e") and len(data) >= 3:
+        elif data[:1] in (b"\x22", b"\x2e", b"\xba") and len(data) >= 3:
             # ReadDataByIdentifier, or (callers of another service) WriteDataByIdentifier: the positive reply echoes the
             # identifier; a negative one names the service and nothing else
             did = (data[1] << 8) | data[2]
             lst = self.scripts.get(did) or ["imm"]
             script = lst.pop(0) if len(lst) > 1 else lst[0]
-            ok = bytes([0x62, data[1], data[2]]) + tag_for(did) if data[0] == 0x22 else bytes([0x6E, data[1], data[2]])
+            ok = bytes([0x62, data[1], data[2]]) + tag_for(did) if data[0] == 0x22 else bytes([0x6E, data[1], data[2]]) if data[0] == 0x2E else bytes([0xFA, data[1], data[2]]) + tag_for(did)
             pend = bytes([0x7F, data[0], 0x78])
             neg = bytes([0x7F, data[0], 0x31])
         else:
@@ -178,6 +178,14 @@ class C05(Check):
         plan["net_seed"] = rng.getrandbits(30)
         # the ECU is unreachable when the reconnecting caller tries (connects refused at once) - for a while or for good; the
         # caller gives reconnect() a budget, fails when it is used up and must then release the client (own stream of draws)
+        # some callers send raw requests of a vendor-specific service for which gallia has no codec (what the service scanner and the
+        # fuzzer do); the peer answers them with the positive response of that service, echoing identifier and tag
+        rngv = rng_for(seed, "C05-vendor-sid", index)
+        for c_ in plan["callers"]:
+            for r_ in c_["reqs"]:
+                if r_.get("sid", 0x22) == 0x22 and rngv.random() < 0.12:
+                    r_["sid"] = 0xBA
+                    r_["raw"] = True
         rng3 = rng_for(seed, "C05-refused", index)
         plan["rc_refused"] = None
         if plan["reconnect_at"] is not None and plan.get("stack") is None and rng3.random() < 0.3:
@@ -343,6 +351,8 @@ class C05(Check):
                                 resp_ = await ecu.send_raw(bytes([0x2E, did >> 8, did & 0xFF, 0xAB]), UDSRequestConfig(max_retry=r["max_retry"]))
                             else:
                                 resp_ = await ecu.request(service.WriteDataByIdentifierRequest(did, b"\xab"), UDSRequestConfig(max_retry=r["max_retry"]))
+                        elif r.get("sid") == 0xBA:
+                            resp_ = await ecu.send_raw(bytes([0xBA, did >> 8, did & 0xFF]), UDSRequestConfig(max_retry=r["max_retry"]))
                         elif r.get("raw"):
                             # scanner style: the same PDU wrapped in a RawRequest (ECU.send_raw)
                             resp_ = await ecu.send_raw(bytes([0x22, did >> 8, did & 0xFF]), UDSRequestConfig(max_retry=r["max_retry"]))
@@ -505,7 +515,8 @@ class C05(Check):
         for r in results:
             if r.get("out") == "return":
                 sid_ = r.get("sid", 0x22)
-                want = bytes([0x62, r["did"] >> 8, r["did"] & 0xFF]) + tag_for(r["did"]) if sid_ == 0x22 else bytes([0x6E, r["did"] >> 8, r["did"] & 0xFF])
+                want = (bytes([0x62, r["did"] >> 8, r["did"] & 0xFF]) + tag_for(r["did"]) if sid_ == 0x22 else bytes([0x6E, r["did"] >> 8, r["did"] & 0xFF]) if sid_ == 0x2E
+                        else bytes([0xFA, r["did"] >> 8, r["did"] & 0xFF]) + tag_for(r["did"]))
                 # a negative response naming the caller's own service is a genuine reply to any request of that service
                 # (no sequence numbers in UDS): not evidence of mis-attribution.  One naming ANOTHER service is.
                 own_negative = len(r["pdu"]) == 3 and r["pdu"][0] == 0x7F and r["pdu"][1] == sid_
@@ -515,6 +526,10 @@ class C05(Check):
                     violation(res, "C05/attribution", "C05/attribution:response-pending-returned-as-the-reply",
                               f"caller {r['caller']} asked for {r['did']:#06x} and was handed the interim {r['pdu'].hex()} as its result")
                     break
+                if sid_ == 0xBA and r["pdu"][:1] == b"\xfa":
+                    # a service gallia has no codec for: the positive response of that service is all the client can match on (C03),
+                    # a late reply to an earlier request of the same service cannot be told from its own
+                    continue
                 if r["pdu"] != want and not own_negative:
                     violation(res, "C05/attribution", "C05/attribution:foreign-reply-returned",
                               f"caller {r['caller']} asked for {r['did']:#06x} and was handed {r['pdu'].hex()} (expected {want.hex()})")
